@@ -16,6 +16,7 @@ def val (j : Json) : Val :=
 def valuesParam (j : Json) : ValuesParam :=
   if isNull j then .none
   else if !(isNull (fld j "list")) then .list ((arrF j "list").map val)
+  else if !(isNull (fld j "tuple")) then .tuple ((arrF j "tuple").map val)
   else .scalar (val (fld j "scalar"))
 
 def rawFilter (j : Json) : RawFilter :=
@@ -82,7 +83,7 @@ def handle (op : String) (j : Json) : Json :=
     let fs := fld j "filters"
     result (applyAll (engine j) (strsF j "exposed") (if isNull fs then none else some ((asArr fs).map rawFilter)) (rowsOf j))
   | "runGroup" =>
-    result (runGroup (engine j) (strsF j "requested") (strsF j "supported") ((arrF j "filters").map rawFilter) (rowsOf j))
+    result (runGroupApi (engine j) (if strF j "eng" == "py" then pyDictFinish else Except.ok) (strsF j "requested") (strsF j "supported") ((arrF j "filters").map rawFilter) (rowsOf j))
   | "sat" =>
     match (rawFilter (fld j "filter")).parse with
     | .error e => jObj [("err", errName e)]
